@@ -274,6 +274,90 @@ func checkStorageForwarding(c *core.Ctx) int {
 	return n
 }
 
+// checkTxnImplementation: the transaction handle itself. Every data method of storage/kv.badgerTxn
+// works on the badger transaction it wraps: it reads the receiver's txn field and never reaches a
+// method of *badger.DB (View / Update / NewTransaction …), i.e. never opens a transaction of its
+// own — a read through a fresh view misses the block's uncommitted writes, a write through a fresh
+// update escapes its rollback.
+func checkTxnImplementation(c *core.Ctx, rule string) int {
+	kv := ssv + "storage/kv"
+	n := 0
+	for _, f := range c.P.SourceFuncs(kv) {
+		if f.Parent() != nil || f.Signature.Recv() == nil {
+			continue
+		}
+		rt := f.Signature.Recv().Type()
+		if p, ok := rt.(*types.Pointer); ok {
+			rt = p.Elem()
+		}
+		nt, ok := rt.(*types.Named)
+		if !ok || nt.Obj().Name() != "badgerTxn" || f.Synthetic != "" {
+			continue
+		}
+		n++
+		// 1. uses the wrapped transaction
+		usesTxn := false
+		for _, g := range funcsWithAnon(f) {
+			for _, b := range g.Blocks {
+				for _, in := range b.Instrs {
+					switch in := in.(type) {
+					case *ssa.Field:
+						if st, ok := in.X.Type().Underlying().(*types.Struct); ok && st.Field(in.Field).Name() == "txn" {
+							usesTxn = true
+						}
+					case *ssa.FieldAddr:
+						if fieldName(in) == "txn" {
+							usesTxn = true
+						}
+					}
+				}
+			}
+		}
+		c.Decide(usesTxn, rule, "badgerTxn."+f.Name()+"|works on the wrapped transaction", c.P.Pos(f.Pos()), "reads t.txn", "badgerTxn."+f.Name()+" never touches the badger transaction it wraps")
+		// 2. reaches no method of *badger.DB
+		seen := map[*ssa.Function]bool{}
+		var path []string
+		var bad string
+		var walk func(g *ssa.Function, depth int)
+		walk = func(g *ssa.Function, depth int) {
+			if g == nil || seen[g] || depth > 4 || bad != "" {
+				return
+			}
+			seen[g] = true
+			path = append(path, enclName(g))
+			defer func() { path = path[:len(path)-1] }()
+			for _, h := range funcsWithAnon(g) {
+				for _, b := range h.Blocks {
+					for _, in := range b.Instrs {
+						ci, ok := in.(ssa.CallInstruction)
+						if !ok {
+							continue
+						}
+						callee := ci.Common().StaticCallee()
+						if callee == nil {
+							continue
+						}
+						if r := callee.Signature.Recv(); r != nil && strings.HasSuffix(r.Type().String(), "dgraph-io/badger/v4.DB") {
+							if bad == "" {
+								bad = strings.Join(path, " → ") + " → badger.DB." + callee.Name() + " at " + c.P.Pos(in.Pos())
+							}
+							return
+						}
+						if callee.Pkg != nil && callee.Pkg.Pkg.Path() == kv {
+							walk(callee, depth+1)
+						}
+					}
+				}
+			}
+		}
+		walk(f, 0)
+		c.Decide(bad == "", rule, "badgerTxn."+f.Name()+"|opens no transaction of its own", c.P.Pos(f.Pos()), "no path to a *badger.DB method",
+			"a method of the transaction handle leaves the transaction: "+bad+" — reads miss the transaction's own writes (an operator added earlier in the block looks absent), writes escape its rollback")
+	}
+	c.Min(rule, n, 8, "methods of storage/kv.badgerTxn")
+	return 0
+}
+
 // checkNoHandleBypass: inside a registry / operator storage function that was given a database
 // handle, no read or write is issued on the Database itself (only on db.Using(h) / db.UsingReader(h)).
 func checkNoHandleBypass(c *core.Ctx, rule string) int {
@@ -312,5 +396,6 @@ func checkNoHandleBypass(c *core.Ctx, rule string) int {
 			}
 		}
 	}
+	checkTxnImplementation(c, rule)
 	return n
 }
